@@ -114,6 +114,10 @@ class Sim:
         self.choices = []
         self.live_lock_breaks = 0
         self.hold_off = False
+        self.job_events_written = []
+        self.job_events_pending = {}
+        self.outage_freeze = False
+        self.outage_fails = {}
         self.finish_step = {}
         self.vnow = 0.0
         self.steps = 0
@@ -225,6 +229,7 @@ class Sim:
             PYTHONHASHSEED=hs,
             VSIM_ZSOCK=zsock,
             VSIM_FILELOCK=scen.get("filelock", ""),
+            VSIM_JOB_EVENTS="1" if scen.get("job_events") else "",
             JADE_REGISTRY=ctx["registry"],
             OPENBLAS_NUM_THREADS="1",
             OMP_NUM_THREADS="1",
@@ -346,6 +351,8 @@ class Sim:
 
     def on_close(self, a):
         a.state = "dead"
+        if self.outage_freeze and a.pid in self.outage_fails:
+            self.outage_freeze = False
         if a.pid:
             self.wait_zombie(a.pid)
         if a.pid in self.rounds:
@@ -797,6 +804,12 @@ class Sim:
                 self.sq_budget -= 1  # transient: the scheduler recovers after a bounded number of failed queries
                 self.faults_injected.append(("squeue_fail", a.host))
             self.log("SQUEUE_FAIL", a.host)
+            if f.get("outage_freeze"):
+                # nothing finishes while the scheduler is down and the round is busy retrying (each retry sleeps): the round must
+                # decide with exactly the knowledge it had when the outage began
+                par = msg.get("ppid")
+                self.outage_fails[par] = self.outage_fails.get(par, 0) + 1
+                self.outage_freeze = not (self.outage_fails[par] % 7 == 0 or self.sq_budget <= 0)
             if r is not None:
                 r["sq_fail"] = r.get("sq_fail", 0) + 1
             return self.reply(a, err="slurm_load_jobs error: Socket timed out on send/recv operation\n", rc=1)
@@ -857,6 +870,9 @@ class Sim:
         rows = self.rows_on_disk()
         rec = {"node": a.node, "host": a.host, "step": self.steps, "epoch": self.epoch, "argv": msg["argv"][1:], "env": {k: v for k, v in msg["env"].items() if k.startswith("JADE_") or k == "SLURM_JOB_ID"}}
         self.launches.setdefault(job, []).append(rec)
+        if msg.get("events"):
+            self.job_events_written.append(msg["events"][0])
+            self.job_events_pending[a.pid] = msg["events"][1]
         self.running_jobs[a.pid] = (job, a.node)
         live = sum(1 for (_j, n) in self.running_jobs.values() if n == a.node)
         self.max_live[a.node or "local"] = max(self.max_live.get(a.node or "local", 0), live)
@@ -892,6 +908,8 @@ class Sim:
         j = self.jobs[job]
         rc = j[self.resub.get("rc_key", "rc2")] if (self.epoch > 0 and self.resub and job in self.resub["selected"]) else j["rc"]
         self.finished.setdefault(job, []).append((rc, self.epoch))
+        if a.pid in self.job_events_pending:
+            self.job_events_written.append(self.job_events_pending.pop(a.pid))
         self.finish_step.setdefault(job, self.steps)
         self.log("FINISH", job, rc)
         self.shared_event(a, "finish", job)
@@ -924,7 +942,9 @@ class Sim:
                 V("teardown-twice", f"teardown command ran {n} times in one (re)submission")
             if self.complete_epochs.get(self.epoch):
                 V("teardown-after-flag", "teardown command ran after the completion flag was set")
-            if self.ff and not self.scen.get("cancel") and not self.rows_unknown and not self.faults_injected and not self.scen.get("cycle"):
+            # a scheduler that does not answer loses no job: after status-query failures alone every job still gets its outcome
+            only_squeue = set(self.scen.get("faults") or {}) <= {"squeue_fail", "squeue_fail_budget", "max_recoveries", "outage_freeze"} and all(f[0] == "squeue_fail" for f in self.faults_injected)
+            if (only_squeue or (self.ff and not self.faults_injected)) and not self.scen.get("cancel") and not self.rows_unknown and not self.scen.get("cycle"):
                 miss = [n_ for n_ in self.jobs if n_ not in rows]
                 if miss:
                     V("teardown-before-outcomes", f"teardown ran while jobs {miss} have no outcome")
@@ -1347,7 +1367,7 @@ class Sim:
                         continue
                 w = 1.0
                 if a.msg["k"] == "jobrun":
-                    if self.frozen_finishes:
+                    if self.frozen_finishes or self.outage_freeze:
                         continue
                     hj = self.scen.get("hold_job")
                     if hj and not self.hold_off and self.running_jobs.get(a.pid, (None, None))[0] == hj["job"]:
@@ -1742,7 +1762,14 @@ class Sim:
             except (OSError, ValueError) as e:
                 self.viol("C20", "event-file-unreadable", f"{os.path.basename(f)}: {e!r}")
                 return
-        if not nlines:
+        # ground truth beyond the files: the events that the jobs of this run handed to their (open) event log
+        truth = []
+        if self.job_events_written and self.ff and not self.faults_injected and not any(b.get("killed") or b.get("cancelled") for b in self.batches.values()) and not self.scen.get("cancel"):
+            for line in self.job_events_written:
+                rec = json.loads(line)
+                truth.append((rec["source"], json.dumps([rec.get("timestamp"), rec.get("source"), rec.get("category"), rec.get("message"), rec.get("data")], sort_keys=True)))
+                raw.setdefault(rec["name"], [])
+        if not nlines and not truth:
             return
         from jade.events import EventsSummary
 
@@ -1763,6 +1790,15 @@ class Sim:
             ts = [x[0] for x in first.get(name, [])]
             if ts != sorted(ts):
                 self.viol("C20", "event-order", f"event name {name!r}: not ordered by time in the consolidated summary")
+        if truth:
+            got = [x[1] for x in first.get("probe_job", [])]
+            lost = sorted({src for src, l in truth if got.count(l) == 0})
+            dup = sorted({src for src, l in truth if got.count(l) > 1})
+            if lost:
+                self.viol("C20", "job-event-lost", f"events logged by jobs {lost} (to their own events.log, kept open while they ran) are not in the consolidated summary: {len([1 for s_, l in truth if got.count(l) == 0])} of {len(truth)}")
+            if dup:
+                self.viol("C20", "job-event-duplicated", f"events logged by jobs {dup} appear more than once in the consolidated summary")
+            self.job_events_checked = len(truth)
         if first != second:
             self.viol("C20", "not-idempotent", "consolidating the events of this run again changed the summary")
         self.events_checked = nlines
@@ -2002,6 +2038,7 @@ class Sim:
             "cancel_sites": getattr(self, "cancel_sites", None),
             "time_jumps": self.time_jumps,
             "parks": self.parks,
+            "job_events_checked": getattr(self, "job_events_checked", 0),
             "live_lock_breaks": self.live_lock_breaks,
             "events_checked": getattr(self, "events_checked", 0),
             "endgame_stalled_at": str(self.eg.get("at")) if self.eg and self.eg.get("at") else None,
